@@ -314,6 +314,49 @@ func c15Run(j vs.Job) *vs.JobResult {
 				return r
 			}
 		}
+	case "longnames":
+		// deep paths of long, poorly compressible unicode names: entry headers of more than a kilobyte, cut everywhere
+		src := fresh()
+		name := func(seed int) string {
+			var sb strings.Builder
+			for i := 0; i < 80; i++ {
+				sb.WriteRune(rune(0x4e00 + (seed*7919+i*104729)%20000))
+			}
+			return sb.String()
+		}
+		deep := filepath.Join(src, "r", name(1), name(2), name(3))
+		must(os.MkdirAll(deep, 0o755))
+		must(os.WriteFile(filepath.Join(deep, name(4)+".txt"), genContent('T', 5, 1500), 0o644))
+		must(os.WriteFile(filepath.Join(src, "r", name(1), name(5)), genContent('R', 6, 10), 0o644))
+		must(os.MkdirAll(filepath.Join(src, "r", name(1), name(2), name(6)), 0o755))
+		top, ref, announced, err := c15Produce(src, 4096)
+		if err != nil || int64(len(ref)) != announced {
+			r.Violate("c15:longnames-produce", fmt.Sprintf("long-name tree: err %v announced %d produced %d", err, announced, len(ref)), nil)
+			return r
+		}
+		longest := 0
+		for _, l := range bytes.Split(ref, []byte("\n")) {
+			if len(l) > longest {
+				longest = len(l)
+			}
+		}
+		r.Max("longest_header_bytes", float64(longest))
+		for c := 1; c < len(ref); c++ {
+			if !check("longnames", src, top, ref, []int{c}) {
+				return r
+			}
+			r.Nontrivial++
+		}
+		for _, size := range []int{1, 2, 3, 5, 64, 500, 1000, 1023, 1024, 1025, 1500, 4096} {
+			var cs []int
+			for c := size; c < len(ref); c += size {
+				cs = append(cs, c)
+			}
+			if !check("longnames", src, top, ref, cs) {
+				return r
+			}
+		}
+		r.Samples = append(r.Samples, fmt.Sprintf("long-name tree: stream of %d bytes, longest header line %d bytes, every single cut and 12 uniform write sizes", len(ref), longest))
 	case "fds":
 		// more entries than descriptors: use must not grow with the entry count
 		old := debug.SetGCPercent(-1) // finalizers must not mask a leak
@@ -522,7 +565,7 @@ func init() {
 		ID:    "C15",
 		Level: "exploration",
 		Rule: "every tree shape with <= 4 entries over {directory, empty file, 1-byte file, 3-byte file} and depth <= 2 x producer read sizes {1,2,3,7,64,32768} x consumer segmentation {whole, every single cut, uniform sizes 1..8}; every pair of cuts on three core trees; a tree with files of several read buffers, unicode names and empty directories cut at and around every header/payload boundary; " +
-			"a 300-entry tree (every third file empty) with descriptor counts taken after every read / write (GC off); each of three files shrinking, emptied or growing between scan and read and after every k-th read of the producer (every moment of the stream) x read sizes {7,64,32768} (thorough: also 1)",
+			"a deep tree of 240-byte unicode names (entry headers above 1 KiB) with every single cut and 12 uniform write sizes; a 300-entry tree (every third file empty) with descriptor counts taken after every read / write (GC off); each of three files shrinking, emptied or growing between scan and read and after every k-th read of the producer (every moment of the stream) x read sizes {7,64,32768} (thorough: also 1)",
 		Assumptions: []string{"real file system in a scratch directory on tmpfs", "descriptor use is counted in /proc/self/fd with the garbage collector disabled so that finalizers cannot hide a leak"},
 		QuickBudget: 100, ThoroughBudget: 600, DiedIsViolation: true,
 		Jobs: func(tier string) []vs.Job {
@@ -534,7 +577,7 @@ func init() {
 			for s := 0; s < 4; s++ {
 				jobs = append(jobs, vs.MkJob(fmt.Sprintf("pairs %d/4", s), c15Params{Part: "pairs", Shard: s, N: 4}))
 			}
-			jobs = append(jobs, vs.MkJob("big", c15Params{Part: "big"}), vs.MkJob("fds", c15Params{Part: "fds"}), vs.MkJob("mutate", c15Params{Part: "mutate"}))
+			jobs = append(jobs, vs.MkJob("big", c15Params{Part: "big"}), vs.MkJob("long names", c15Params{Part: "longnames"}), vs.MkJob("fds", c15Params{Part: "fds"}), vs.MkJob("mutate", c15Params{Part: "mutate"}))
 			return jobs
 		},
 		Run: c15Run,
